@@ -403,7 +403,7 @@ Proof.
   intros Hr. unfold negacyclic. rewrite zeval_map_mod. unfold nega_fold.
   rewrite zeval_zpoly_add, zeval_map_opp, <- zeval_zpoly_mul.
   set (d := zpoly_mul a b).
-  rewrite (zeval_firstn_skipn 64 d r) at 3.
+  rewrite (zeval_firstn_skipn 64 d r).
   assert (E : eqp (r ^ Z.of_nat 64) (-1)).
   { unfold eqp. rewrite <- pow_mod_spec, Hr. reflexivity. }
   rewrite E. apply eqp_of_eq. ring.
